@@ -291,6 +291,7 @@ def structural(prog):
 BLOCK = f'{CLI}:process_nodes_recursive__coloured_rule'
 BLOCK_AT = f'{CLI}:process_nodes_recursive__at_rule'
 BLOCK_SCAN = f'{CLI}:process_nodes_recursive__decl_scan'
+RESOLVE = f'{CLI}:resolve_variable'
 def _cn(name, old, new, expect): return {'name': name, 'mod': CLI, 'old': old, 'new': new, 'fn': BLOCK, 'expect': expect}
 CANARIES_A = [
     _cn('readable counted twice', '                            stats["accessible"] += 1\n', '                            stats["accessible"] += 2\n', 'counted_exactly_once'),
@@ -305,6 +306,9 @@ CANARIES_A = [
     dict(_cn('at-rule content not rebuilt after the descent', '                node.content = new_content\n', '                pass\n', 'rebuilt_after_descent'), fn=f'{CLI}:process_nodes_recursive__at_rule'),
     dict(_cn('declaration scan stops once colour and background were seen', '                elif decl.name == "background-color":\n                    bg_decl = decl\n', '                elif decl.name == "background-color":\n                    bg_decl = decl\n                if color_decl and bg_decl:\n                    break\n', 'is_the_last'), fn=f'{CLI}:process_nodes_recursive__decl_scan'),
     dict(_cn('first `color` declaration wins', '                if decl.name == "color":\n                    color_decl = decl', '                if decl.name == "color" and color_decl is None:\n                    color_decl = decl', 'color_is_last'), fn=f'{CLI}:process_nodes_recursive__decl_scan'),
+    dict(_cn('custom property looked up without the membership test (KeyError on an undefined name)', '    if var_name in variables:\n        resolved = resolve_variable(', '    if True:\n        resolved = resolve_variable(', 'raises_only'), fn=f'{CLI}:resolve_variable'),
+    dict(_cn('resolve_variable returns the match object', '    if var_name in visited:\n        return fallback', '    if var_name in visited:\n        return match', 'result'), fn=f'{CLI}:resolve_variable'),
+    dict(_cn('resolve_variable splits the fallback without testing it for None', '    if fallback:\n        return resolve_variable(fallback, variables, visited)', '    if True:\n        return resolve_variable(fallback.strip(), variables, visited)', None), fn=f'{CLI}:resolve_variable'),
     _cn('ratio kept in a second local (harmless)', 'contrast = calculate_contrast_ratio(pair.text.rgb, pair.bg.rgb)\n\n                        if contrast >= target_ratio:', 'ratio_now = calculate_contrast_ratio(pair.text.rgb, pair.bg.rgb)\n                        contrast = ratio_now\n\n                        if ratio_now >= target_ratio:', None),
 ]
 
@@ -319,9 +323,9 @@ def run(args):
     cj = []
     for cn in CANARIES_A:
         ov = mutate(prog, CLI, cn['old'], cn['new']); cj.append(None if ov is None else (cn['fn'], ov))
-    reps = verify_many([(BLOCK, None), (BLOCK_AT, None), (BLOCK_SCAN, None)] + [j for j in cj if j], variant='c08')
-    ck.absorb_A(reps[:3])
-    it = iter(reps[3:]); ck.absorb_canaries(CANARIES_A, [None if j is None else next(it) for j in cj])
+    reps = verify_many([(BLOCK, None), (BLOCK_AT, None), (BLOCK_SCAN, None), (RESOLVE, None)] + [j for j in cj if j], variant='c08')
+    ck.absorb_A(reps[:4])
+    it = iter(reps[4:]); ck.absorb_canaries(CANARIES_A, [None if j is None else next(it) for j in cj])
     for s_ in ck.selftest:
         if '(harmless)' in s_['name']:
             s_['ok'] = not s_['ok'] if ('still verifies' in s_['detail'] or 'killed' in s_['detail']) else s_['ok']; s_['detail'] = 'harmless edit: ' + s_['detail']
